@@ -122,3 +122,12 @@ var rxSnapQueryColumns = [][2]string{
 
 // the literal pieces of the version-filter condition: open, separator, close, kind column, range test
 var rxSnapRangeTest = []string{"'{", ",", "}'::int[]", "version_kind", "vulnerable_range @> "}
+
+// matchers/defaults: the elements of defaultMatchers as Gen/Matchers printed them, with the
+// Go type of the matcher the registry hands out (rhcc's exported variable holds an unexported type).
+var rxSnapDefaults = [][2]string{
+	{"alpine.Matcher", "alpine.Matcher"}, {"aws.Matcher", "aws.Matcher"}, {"debian.Matcher", "debian.Matcher"},
+	{"gobin.Matcher", "gobin.Matcher"}, {"java.Matcher", "java.Matcher"}, {"oracle.Matcher", "oracle.Matcher"},
+	{"photon.Matcher", "photon.Matcher"}, {"python.Matcher", "python.Matcher"}, {"rhcc.Matcher", "rhcc.matcher"},
+	{"ruby.Matcher", "ruby.Matcher"}, {"suse.Matcher", "suse.Matcher"}, {"ubuntu.Matcher", "ubuntu.Matcher"},
+}
